@@ -78,6 +78,10 @@ func (o hop) String() string {
 		return fmt.Sprintf("name(%s,%v,%q)", o.S, uIPs[o.I], uNames[o.N])
 	case "fname":
 		return fmt.Sprintf("fname(%s,%v,%s,%q)", uMACName[o.M], uIPs[o.I], o.S, uNames[o.N])
+	case "runt":
+		return fmt.Sprintf("runt(%s,ethertype#%d)", uMACName[o.M], o.I%3)
+	case "arprelay":
+		return fmt.Sprintf("arprelay(sender=%s,%v,relay#%d)", uMACName[o.M], uIPs[o.I], o.N%3)
 	case "dhcp", "offer":
 		return fmt.Sprintf("%s(%s,%v,%q)", o.K, uMACName[o.M], uIPs[o.I], uNames[o.N])
 	}
@@ -105,6 +109,12 @@ var deadlineCfgs = []deadlines{
 func randHop(r *rand.Rand, d deadlines) hop {
 	switch c := r.Intn(20); {
 	case c < 1:
+		switch r.Intn(4) {
+		case 0:
+			return hop{K: "runt", M: 2 + r.Intn(2), I: r.Intn(3)}
+		case 1:
+			return hop{K: "arprelay", M: 2 + r.Intn(2), I: r.Intn(3), N: r.Intn(3)}
+		}
 		return hop{K: "fname", M: 2 + r.Intn(2), I: []int{0, 1, 2, 8, 9, 10}[r.Intn(6)], N: r.Intn(3), S: []string{"mdns", "ssdp", "llmnr", "nbns"}[r.Intn(4)]}
 	case c < 6:
 		return hop{K: "f4", M: r.Intn(5), I: r.Intn(8)}
@@ -242,6 +252,26 @@ func (hr *hostsRun) history() {
 					mip = uIPs[6]
 				}
 				want = m.Frame(kind, model.MAC(mac[:]), mip, o.K == "dhcpframe")
+			case "runt":
+				// an Ethernet header and nothing behind it (EtherType IPv4 / IPv6 / ARP), read into the receive buffer that still
+				// holds the bytes of whatever was there before: Parse must reject it, nothing may change
+				et := []uint16{0x0800, 0x86dd, 0x0806}[o.I%3]
+				b := rx.load(refdec.Ether(uMACs[0], mac, et, 0, nil))
+				if frame, err := s.Parse(b); err == nil {
+					s.Notify(frame)
+				}
+				c.Obs("runt_frames", 1)
+			case "arprelay":
+				// ARP request relayed by another station: Ethernet source = relay (o.N selects router / B), sender hardware
+				// address = mac. The host is tracked under the ARP sender address (layer_frame.go: "use arp src mac and ip")
+				relay := uMACs[[]int{1, 3, 2}[o.N%3]]
+				b := rx.load(refdec.Ether(refdec.MAC{0xff, 0xff, 0xff, 0xff, 0xff, 0xff}, relay, 0x0806, 0, refdec.ARP(refdec.ARPPkt{HType: 1, PType: 0x0800, HLen: 6, PLen: 4, Op: 1, SHA: mac, SPA: ip, TPA: uIPs[3]})))
+				frame, err := s.Parse(b)
+				if err == nil {
+					s.Notify(frame)
+				}
+				want = m.Frame("arp", model.MAC(mac[:]), ip, false)
+				c.Obs("relayed_arp_frames", 1)
 			case "fname":
 				// a frame that a naming handler processes between Parse and Notify (as the packet loop does for mDNS/NBNS/LLMNR/SSDP)
 				kind, fk := "ip4", "f4"
